@@ -15,6 +15,7 @@ import time
 
 HERE = os.path.dirname(os.path.abspath(__file__))
 sys.path.insert(0, HERE)
+OUT = os.environ.get('VERIF_OUT', HERE)      # evidence/ and replays/ live here (the mutation self-test redirects it)
 PY = os.path.join(HERE, '.venv', 'bin', 'python')
 
 
@@ -158,7 +159,7 @@ def main():
         per_instance.append(row)
 
     # ---- violations vs known findings
-    os.makedirs(os.path.join(HERE, 'replays'), exist_ok=True)
+    os.makedirs(os.path.join(OUT, 'replays'), exist_ok=True)
     new_violations = []
     known_hits = {}
     for v in violations:
@@ -176,7 +177,7 @@ def main():
         if key in seen:
             continue
         seen.add(key)
-        path = os.path.join(HERE, 'replays', f"{prop}-{len(vio_files)}.json")
+        path = os.path.join(OUT, 'replays', f"{prop}-{len(vio_files)}.json")
         json.dump(v, open(path, 'w'), indent=1, default=str)
         vio_files.append(path)
         print(f"VIOLATION property={prop} replay={path}")
@@ -208,8 +209,8 @@ def main():
         wall_s=round(wall, 2),
         violations=len(vio_files),
     )
-    os.makedirs(os.path.join(HERE, 'evidence'), exist_ok=True)
-    json.dump(ev, open(os.path.join(HERE, 'evidence', f"{prop}.json"), 'w'), indent=1, default=str)
+    os.makedirs(os.path.join(OUT, 'evidence'), exist_ok=True)
+    json.dump(ev, open(os.path.join(OUT, 'evidence', f"{prop}.json"), 'w'), indent=1, default=str)
     print(f"[{prop} {tier}] instances={len(instances)} paths={agg['paths']} obligations={agg['obligations']} discharged={agg['discharged']} "
           f"(normal-form {agg['closed_by_normal_form']}, solver-unsat {agg['solver_unsat']}, by-construction {agg['closed_by_construction']}) "
           f"inconclusive={len(inconclusive)} violations={len(vio_files)} known={len(known_hits)} harness_errors={len(harness_errors)} wall={wall:.1f}s")
